@@ -2,7 +2,8 @@
 C01 — abstract syntax of the risor core grammar, as one inductive type so that structural
 induction is plain.  Sequences (statement lists, argument lists, list items, switch cases,
 template parts) are `cons`/`nilL` chains inside the same type.  One constructor per `ast`
-node the core grammar uses (ast/expressions.go, ast/statements.go, ast/literals.go).
+node the core grammar uses (ast/expressions.go, ast/statements.go, ast/literals.go),
+including `defer`, pipes, set and map literals.
 Core Lean only.
 -/
 namespace Risor.C01
@@ -30,6 +31,9 @@ inductive N where
   | index (e i : N)
   | slice (e lo hi : N)
   | list (items : N)
+  | set (items : N)                             -- `{a, b}`
+  | map (entries : N)                           -- `{k: v, …}`: cons-list alternating key, value
+  | pipe (stages : N)                           -- `a | f | g(1)`: cons-list of >= 2 expressions
   | tmpl (parts : N)
   | func (name : String) (params body : N)      -- params: cons-list of `param`
   | param (name : String) (dflt : N)
@@ -51,6 +55,7 @@ inductive N where
   | forin (v : String) (cont body : N)
   | break_ | continue_
   | return_ (e : N)                             -- `none_` = bare return
+  | defer_ (call : N)                           -- `defer f(args)`: `call` is a `call` or `mcall` node
   | expr (e : N)
   | block (stmts : N)
   | prog (stmts : N)
